@@ -5,6 +5,13 @@ import os
 from trashcli.lib.dir_reader import DirReader
 
 
+def is_trashinfo_name(entry):  # type: (str) -> bool
+    # NAME.trashinfo describes files/NAME: with '', '.' or '..' for NAME that
+    # would be files/ itself or the trash directory, not a trashed file
+    return (entry.endswith('.trashinfo') and
+            entry[:-len('.trashinfo')] not in ('', '.', '..'))
+
+
 class TrashDirReader:
 
     def __init__(self,
@@ -24,5 +31,5 @@ class TrashDirReader:
     def list_trashinfo(self, path):
         info_dir = os.path.join(path, 'info')
         for entry in self.dir_reader.entries_if_dir_exists(info_dir):
-            if entry.endswith('.trashinfo'):
+            if is_trashinfo_name(entry):
                 yield os.path.join(info_dir, entry)
